@@ -108,14 +108,15 @@ theorem BudInv.deleteJobs (s : AState) (x : Option Nat) (h : BudInv s x) (q : Li
   | cons y ys ih => simp only [List.foldl_cons]; exact ih _ (BudInv.deleteJob s x h y cur)
 
 theorem AState.task?_append (s : AState) (t b : ATask) (j : Nat)
-    (h : ({ s with tasks := s.tasks ++ [t] } : AState).task? j = some b) : s.task? j = some b ∨ b = t := by
+    (h : ({ s with tasks := s.tasks ++ [t] } : AState).task? j = some b) :
+    s.task? j = some b ∨ (j = s.tasks.length ∧ b = t) := by
   simp only [AState.task?] at h ⊢
   by_cases hj : j < s.tasks.length
   · left; rw [List.getElem?_append_left hj] at h; exact h
   · right
     rw [List.getElem?_append_right (by omega)] at h
     cases hx : j - s.tasks.length with
-    | zero => rw [hx] at h; simpa using h.symm
+    | zero => rw [hx] at h; exact ⟨by omega, by simpa using h.symm⟩
     | succ n => rw [hx] at h; simp at h
 
 theorem BudInv.schedule (s : AState) (x : Option Nat) (h : BudInv s x) (sp : RawSpec) (runs : List RunScript) :
@@ -128,11 +129,11 @@ theorem BudInv.schedule (s : AState) (x : Option Nat) (h : BudInv s x) (sp : Raw
       have hjok : JobOK j := JobOK.ofCreateJob s.tz sp s.now false j (by simpa using hc)
       refine ⟨?_, ?_, h.logs⟩
       · intro i t ht
-        rcases AState.task?_append s _ t i ht with h1 | h1
+        rcases AState.task?_append s _ t i ht with h1 | ⟨_, h1⟩
         · exact h.ok i t h1
         · subst h1; exact hjok
       · intro i t ht hx hlv
-        rcases AState.task?_append s _ t i ht with h1 | h1
+        rcases AState.task?_append s _ t i ht with h1 | ⟨_, h1⟩
         · exact h.live i t h1 hx hlv
         · subst h1; simp [isLive] at hlv
 
